@@ -35,6 +35,9 @@ Decided (DESIGN.md section 5, C12):
                                       a table, both tables map each name to the same class template, name == snake_case(class),
                                       register_map<..., K> forwards K to create_map<..., K> and the name to MapFactory::register_map;
                                       MapFactory::create_map invokes the callback found under config[0] and throws otherwise
+ (+) O1-index-file-open-keeps-contents  the open() whose descriptor goes into `new Map{fd}` uses O_RDWR|O_CREAT without O_TRUNC / O_EXCL
+     M1-file-grown-before-mapping     every file-backed mmap() is dominated by the call that grows the file (reaches ftruncate); the members
+                                      that call reads as its size source are stored before it, and the mapped length is that size
  (6) E1-mmap-oserror-reaches-throw    ERRDISC on mmap / mremap / munmap / fstat / ftruncate / open / tmpfile / dup in the index and
                                       memory-mapping layer (is_valid() is inlined for the evaluation)
  (+) V1-mmap-vector-growth-filled-empty   every growth of an mmap_vector (constructors, reserve) fills [old extent, new extent) with
@@ -766,13 +769,23 @@ def nlfw_rules(fb, R, classes):
             R.broken('%s: way / node / get_node_location not instantiated' % rec.full)
             continue
         flag = None
+        units = {}      # way Fn id -> (unit Fn holding the flag test and the sorts, call node in way() or None)
         for fn in ways:
-            for name in stor:
-                for nid in _role_ids(fb, fn, _is_sort_of(name)):
-                    for (c, s, b, o) in U.guards(fn, nid):
-                        m = fn.sn(c)
-                        if s and m is not None and m.get('k') == 'member' and m.get('field') and fn.is_this_member(c) and m.get('t') == 'bool':
-                            flag = m['name']
+            cands = [(fn, None)]
+            for c_ in fn.all_nodes():
+                if c_.get('k') == 'call' and c_.get('rcls') == fn.cls and 'u' in c_ and not c_.get('args') and c_.get('recv') is not None \
+                        and (fn.sn(c_['recv']) or {}).get('k') == 'this':
+                    g = U._callee_for(fb, fn, c_)
+                    if g is not None and g.has_cfg and g.id != fn.id:
+                        cands.append((g, c_))
+            for (u, call) in cands:
+                for name in stor:
+                    for nid in _role_ids(fb, u, _is_sort_of(name)):
+                        for (c, s, b, o) in U.guards(u, nid):
+                            m = u.sn(c)
+                            if s and m is not None and m.get('k') == 'member' and m.get('field') and u.is_this_member(c) and m.get('t') == 'bool':
+                                flag = m['name']
+                                units.setdefault(fn.id, (u, call))
         if flag is None:
             reach = set()
             for fn in ways:
@@ -786,12 +799,14 @@ def nlfw_rules(fb, R, classes):
             continue
         lookup_q = {f.q for f in lookups}
         for fn in ways:
-            _nlfw_way(fb, R, fn, stor, flag, lookup_q)
+            u, call = units.get(fn.id, (fn, None))
+            _nlfw_way(fb, R, fn, stor, flag, lookup_q, u, call)
         for fn in nodes:
             _nlfw_node(fb, R, fn, stor, flag)
         # flag is cleared nowhere else
+        unit_ids = {u.id for (u, _c) in units.values()}
         for fn in fns:
-            if fn.name == 'way' or fn.kind in ('ctor',):
+            if fn.name == 'way' or fn.kind in ('ctor',) or fn.id in unit_ids:
                 continue
             for n in fn.all_nodes():
                 if n.get('k') == 'assign' and fn.is_this_member(n['lhs'], flag) and fn.const_value(n['rhs']) != 1:
@@ -854,33 +869,56 @@ def _role_before(fb, fn, pred_a, pred_b):
     return True
 
 
-def _nlfw_way(fb, R, fn, stor, flag, lookup_q):
+def _nlfw_way(fb, R, fn, stor, flag, lookup_q, u=None, ucall=None):
+    """u: the function that holds the flag test and the sorts -- way() itself, or an argument-less helper of the class that way()
+    calls at `ucall` (the "sort if needed" prefix extracted).  Keys stay those of way(): that is where the oracle requires the order."""
     r1, r2 = 'N1-way-sorts-before-lookup', 'N2-flag-cleared-only-after-sort'
-    sorts = {name: _role_ids(fb, fn, _is_sort_of(name)) for name in stor}
+    u = u or fn
+    sorts = {name: _role_ids(fb, u, _is_sort_of(name)) for name in stor}
     ok = all(sorts[name] for name in stor)
     R.check(ok, r1, fn.q + '#sorts-both-storages-under-flag', fn.site,
             'way() sorts %s but the handler stores into %s' % (sorted(k for k, v in sorts.items() if v), stor))
-    looks = [n for n in fn.all_nodes() if n.get('k') == 'call' and (n.get('q') in lookup_q or
-             (n.get('q', '').rsplit('::', 1)[-1] in ('get', 'get_noexcept') and (fn.root_var(n.get('recv')) or (None, None, None))[2] in stor))]
+
+    def is_lookup(f, n):
+        return n.get('k') == 'call' and (n.get('q') in lookup_q or (n.get('q', '').rsplit('::', 1)[-1] in ('get', 'get_noexcept')
+                                                                     and (f.root_var(n.get('recv')) or (None, None, None))[2] in stor))
+    looks = [n for n in fn.all_nodes() if is_lookup(fn, n)]
     if not looks:
         R.bad(r1, fn.q + '#sort-precedes-every-lookup', fn.site, 'way() performs no lookup')
 
-    def edge_ok(b, i, s):
-        blk = fn.blocks[b]
-        if 'cond' in blk and len(blk['succs']) == 2:
-            for (c, sense) in U.edge_facts(fn, blk, i):
-                if fn.is_this_member(c, flag) and not sense:
-                    return False   # flag not set: nothing to sort
-        return True
+    def flag_edges(f):
+        def edge_ok(b, i, s):
+            blk = f.blocks[b]
+            if 'cond' in blk and len(blk['succs']) == 2:
+                for (c, sense) in U.edge_facts(f, blk, i):
+                    if f.is_this_member(c, flag) and not sense:
+                        return False   # flag not set: nothing to sort
+            return True
+        return edge_ok
     for name in stor:
         ids = set(sorts[name])
-        for L in looks:
-            w = path_search(fn, fn.entry, lambda e: e == L['id'], lambda e: e in ids, edge_ok, from_block_start=True)
-            R.check(w is None and bool(ids), r1, fn.q + '#sort-precedes-every-lookup', fn.loc(L['id']),
-                    'with %s set a lookup is reached before %s.sort(): %s' % (flag, name, describe_path(fn, w)))
+        if u is fn:
+            for L in looks:
+                w = path_search(fn, fn.entry, lambda e: e == L['id'], lambda e: e in ids, flag_edges(fn), from_block_start=True)
+                R.check(w is None and bool(ids), r1, fn.q + '#sort-precedes-every-lookup', fn.loc(L['id']),
+                        'with %s set a lookup is reached before %s.sort(): %s' % (flag, name, describe_path(fn, w)))
+        else:
+            # the helper sorts on every path on which the flag is set, performs no lookup before that, and its call precedes every lookup
+            w = path_search(u, u.entry, lambda e: U.is_exit(e) or (not isinstance(e, tuple) and is_lookup(u, u.nodes[e])),
+                            lambda e: e in ids or e in U.throw_ids(u), flag_edges(u), from_block_start=True)
+            R.check(w is None and bool(ids), r1, fn.q + '#sort-precedes-every-lookup', u.site,
+                    'with %s set %s can return (or look up) before %s.sort(): %s' % (flag, u.q, name, describe_path(u, w)))
+            for L in looks:
+                w = path_search(fn, fn.entry, lambda e: e == L['id'], lambda e: e == ucall['id'], from_block_start=True)
+                R.check(w is None, r1, fn.q + '#sort-precedes-every-lookup', fn.loc(L['id']),
+                        'a lookup in way() is reached without passing %s(): %s' % (u.name, describe_path(fn, w)))
     is_clear = lambda f, n: n.get('k') == 'assign' and f.is_this_member(n['lhs'], flag) and f.const_value(n['rhs']) == 0
-    ok = all(_role_before(fb, fn, _is_sort_of(name), is_clear) for name in stor)
+    ok = all(_role_before(fb, u, _is_sort_of(name), is_clear) for name in stor)
     R.check(ok, r2, '%s#%s' % (fn.q, flag), fn.site, 'way() must clear %s only after both storages were sorted (and must clear it, or every way re-sorts)' % flag)
+    if u is not fn:
+        for n in fn.all_nodes():
+            if is_clear(fn, n):
+                R.bad(r2, '%s#%s' % (fn.q, flag), fn.loc(n['id']), 'way() clears %s outside %s()' % (flag, u.name))
 
     # sentinel reset: after the sorts the last-id member is set to the maximum of its type, on every path that clears the flag
     def is_reset(f, n):
@@ -897,13 +935,13 @@ def _nlfw_way(fb, R, fn, stor, flag, lookup_q):
             xt = int_type(x.get('t')) if x is not None else None
             return x is not None and x.get('k') == 'call' and x.get('q') == 'std::numeric_limits::max' and not x.get('args') and xt == lt
         return False
-    resets = _role_ids(fb, fn, is_reset)
-    clears = _role_ids(fb, fn, is_clear)
-    ok = bool(resets) and all(_role_before(fb, fn, _is_sort_of(name), is_reset) for name in stor)
+    resets = _role_ids(fb, u, is_reset)
+    clears = _role_ids(fb, u, is_clear)
+    ok = bool(resets) and all(_role_before(fb, u, _is_sort_of(name), is_reset) for name in stor)
     for c in clears:
         if c in resets:
             continue
-        ok = ok and (any(fn.elem_dominates(r, c) for r in resets) or U.must_pass_after(fn, c, resets) is None)
+        ok = ok and (any(u.elem_dominates(r, c) for r in resets) or U.must_pass_after(u, c, resets) is None)
     R.check(ok, 'N3-last-id-sentinel-reset', fn.q + '#last-id-reset-to-max-after-sort', fn.site,
             'after sorting, way() must set the last-seen id to the maximum so that the next node() requests a new sort '
             '(a node appended to the sorted storage with an id between the last and the largest stored id would not be found)')
@@ -1326,6 +1364,107 @@ def errdisc_rules(fb, R, classes):
         R.note('ERRDISC whitelist: %s -- %s' % (k, v))
 
 
+# ------------------------------------------------------------------------------------------------ file-backed indexes
+
+# Linux <fcntl.h> (asm-generic): the repository's build target
+O_ACCMODE, O_RDWR, O_CREAT, O_EXCL, O_TRUNC = 3, 2, 0o100, 0o200, 0o1000
+
+
+def file_backed_rules(fb, R):
+    """O1: the open() whose descriptor is handed to a file-backed map constructor keeps an existing index file;
+       M1: a file-backed mapping is (re)mapped only after the file was grown to the size that is being mapped."""
+    r1, r2 = 'O1-index-file-open-keeps-contents', 'M1-file-grown-before-mapping'
+    n1 = 0
+    for fn in fb.functions:
+        if not fn.has_cfg or not fn.q.startswith('osmium::index::'):
+            continue
+        news = [n for n in fn.all_nodes() if n.get('k') == 'new']
+        for o in [n for n in fn.all_nodes() if E.is_extern_c(n) and n.get('q') in ('open', 'open64') and len(n.get('args', [])) >= 2]:
+            # role: its result (through a local) is an argument of the `new Map{fd}` of this function
+            d = None
+            for m in fn.all_nodes():
+                if m.get('k') == 'decl':
+                    for v in m['vars']:
+                        if isinstance(v.get('init'), int) and o['id'] in fn.subtree(v['init']):
+                            d = v['d']
+            feeds = any(any(fn.nodes[x].get('k') == 'var' and fn.nodes[x].get('d') == d for x in fn.subtree(nw['id'])) for nw in news) if d is not None else False
+            if not feeds:
+                continue
+            n1 += 1
+            flags = fn.const_value(o['args'][1])
+            if flags is None:
+                R.broken('%s: open() flags are not a constant expression' % fn.q)
+                continue
+            ok = (flags & O_ACCMODE) == O_RDWR and (flags & O_CREAT) and not (flags & O_TRUNC) and not (flags & O_EXCL)
+            R.check(ok, r1, fn.q + '#open-flags', fn.loc(o['id']),
+                    '%s opens the index file with flags %#o: a file-backed index must be opened O_RDWR|O_CREAT and without O_TRUNC / O_EXCL '
+                    '(re-opening "…_file_array,<file>" must find the entries that were stored before)' % (fn.q, flags), 'flags %#o' % flags)
+    if n1 == 0:
+        R.broken('no open() feeding a file-backed map constructor found')
+    # M1
+    MM = 'osmium::MemoryMapping'
+    fns = [f for f in fb.functions if f.cls == MM and f.has_cfg and not f.is_lambda]
+    grow_memo = {}
+
+    def grower(f, n):
+        """call on this of a method that (transitively) resizes the backing file -> callee Fn"""
+        if n.get('k') != 'call' or n.get('rcls') != MM or 'u' not in n:
+            return None
+        g = U._callee_for(fb, f, n)
+        if g is None or not g.has_cfg:
+            return None
+        if g.usr not in grow_memo:
+            grow_memo[g.usr] = bool({'ftruncate', 'ftruncate64', '_chsize_s'} & fb.callees_closure(g, depth=4))
+        return g if grow_memo[g.usr] else None
+    nmap = 0
+    for fn in fns:
+        maps = [n for n in fn.all_nodes() if E.is_extern_c(n) and n.get('q') in ('mmap', 'mmap64') and len(n.get('args', [])) == 6]
+        if not maps:
+            continue
+        grows = [(n, grower(fn, n)) for n in fn.all_nodes()]
+        grows = [(n, g) for (n, g) in grows if g is not None]
+        for M in maps:
+            fdv = fn.const_value(M['args'][4])
+            if fdv == -1:
+                continue    # anonymous mapping
+            nmap += 1
+            key = '%s#file-grown-to-mapped-size-before-mmap' % fn.q
+            site = fn.loc(M['id'])
+            dom = [(n, g) for (n, g) in grows if fn.elem_dominates(n['id'], M['id'])]
+            if not R.check(bool(dom), r2, key, site, '%s maps the file without first growing it to the mapped size (access beyond the old end of file raises SIGBUS)' % fn.q):
+                continue
+            len_text = U.ctext(fb, fn, M['args'][1])
+            ok = True
+            why = ''
+            for (G, g) in dom:
+                # members the grower reads as its size source, which this function (re)writes
+                read = {m['name'] for m in g.all_nodes() if m.get('k') == 'member' and m.get('field') and g.is_this_member(m['id'])
+                        and (m.get('t') or '').replace('const ', '') in ('unsigned long', 'std::size_t', 'long')}
+                for name in sorted(read):
+                    writes = [w for w in fn.all_nodes() if (w.get('k') == 'assign' and fn.is_this_member(w['lhs'], name))
+                              or (w.get('k') == 'init' and w.get('name') == name)]
+                    if not writes:
+                        continue
+                    before = [w for w in writes if fn.elem_dominates(w['id'], G['id'])]
+                    late = [w for w in writes if not fn.elem_dominates(w['id'], G['id']) and fn.elem_dominates(w['id'], M['id'])]
+                    if late or not before:
+                        ok = False
+                        why = '%s reads %s, but %s stores the new value of %s only after calling it' % (g.name, name, fn.name, name)
+                # the size that is mapped is the size the file was grown to
+                vals = set()
+                for w in fn.all_nodes():
+                    if (w.get('k') == 'assign' and w.get('op') == '=' and fn.is_this_member(w['lhs']) and fn.elem_dominates(w['id'], G['id'])):
+                        vals.add((fn.sn(w['lhs'])['name'], U.ctext(fb, fn, w['rhs'])))
+                    if w.get('k') == 'init' and isinstance(w.get('init'), int) and fn.elem_dominates(w['id'], G['id']):
+                        vals.add((w.get('name'), U.ctext(fb, fn, w['init'])))
+                if ok and not (len_text in read or any(nm in read and v == len_text for (nm, v) in vals)):
+                    ok = False
+                    why = 'the mapped length %s is not the size %s grows the file to (%s)' % (len_text, g.name, sorted(read))
+            R.check(ok, r2, key, site, '%s: %s -- the new mapping would extend beyond the end of the file (SIGBUS on first access)' % (fn.q, why))
+    if nmap == 0:
+        R.broken('no file-backed mmap() call found in %s' % MM)
+
+
 # ------------------------------------------------------------------------------------------------ driver
 
 def all_rules(fb, R):
@@ -1340,6 +1479,7 @@ def all_rules(fb, R):
     mmap_vector_rules(fb, R)
     dump_rules(fb, R, classes)
     factory_rules(fb, R)
+    file_backed_rules(fb, R)
     errdisc_rules(fb, R, classes)
 
 
@@ -1371,6 +1511,8 @@ def run(ctx):
     R.expect('V2-mmap-vector-size-within-capacity', 3)  # resize, reserve, push_back
     R.expect('D1-dump-writes-whole-vector', 3)
     R.expect('T1-registration-table', 50)           # 16 rows x (unique, denotes) + 8 agree + 8 register_map + factory create / register
+    R.expect('O1-index-file-open-keeps-contents', 1)   # create_map_with_fd
+    R.expect('M1-file-grown-before-mapping', 2)       # MemoryMapping constructor, resize (file branch)
     R.expect('E1-mmap-oserror-reaches-throw', 9)    # mmap x2, mremap, munmap, fstat, ftruncate, open, tmpfile, dup
 
 
@@ -1382,10 +1524,12 @@ def _selftest_maps(fb, R):
     flexmem_rules(fb, R)
     nlfw_rules(fb, R, classes)
     mmap_vector_rules(fb, R)
+    file_backed_rules(fb, R)
 
 
 SELFTESTS = [(r, 'c12_maps.cpp', _selftest_maps) for r in (
     'B1-dense-access-in-bounds', 'G1-get-absent-throws', 'G2-get_noexcept-absent-empty', 'S1-search-key-prefix-of-sort-key',
     'S2-sort-override-sorts-searched-container', 'F1-flexmem-block-offset-tiling', 'F2-flexmem-switch-carries-all',
     'F3-flexmem-mode-dispatch', 'N1-way-sorts-before-lookup', 'N2-flag-set-on-descent', 'N3-last-id-sentinel-reset',
-    'N4-sign-routing-agrees', 'V1-mmap-vector-growth-filled-empty', 'V2-mmap-vector-size-within-capacity')]
+    'N4-sign-routing-agrees', 'V1-mmap-vector-growth-filled-empty', 'V2-mmap-vector-size-within-capacity',
+    'O1-index-file-open-keeps-contents', 'M1-file-grown-before-mapping')]
